@@ -251,6 +251,9 @@ func mapReduceWithPanicChan(source <-chan any, panicChan *onceChan, mapper Mappe
 			return nil, err
 		} else if ok {
 			return v, nil
+		} else if options.ctx.Err() != nil {
+			// 上下文已结束，加工与聚合的写入均被丢弃：与 ctx.Done() 分支保持一致
+			return nil, context.DeadlineExceeded
 		} else {
 			return nil, ErrReduceNoOutput
 		}
